@@ -111,6 +111,19 @@ fn special_draw() -> BoxedStrategy<Vec<u64>> {
 }
 
 fn scripted_prefix(max: usize) -> BoxedStrategy<Vec<u64>> {
+  prop_oneof![
+    8 => scripted_prefix_short(max),
+    // a long run of draws that rejection sampling must refuse (>= p), then anything
+    1 => (1usize..40, vec(word(), 0..4)).prop_map(|(k, tail)| {
+      let mut w = vec![u64::MAX; 3 * k];
+      w.extend(tail);
+      w
+    }),
+  ]
+  .boxed()
+}
+
+fn scripted_prefix_short(max: usize) -> BoxedStrategy<Vec<u64>> {
   (vec(word(), 0..max), proptest::option::weighted(0.4, (special_draw(), 0usize..3)))
     .prop_map(|(mut w, sp)| {
       if let Some((limbs, at)) = sp {
@@ -505,6 +518,95 @@ fn pts_oracle(c: &PtsCase, st: &mut Stats) -> Result<(), String> {
   Ok(())
 }
 
+
+#[derive(Clone, Debug, Serialize, Deserialize)]
+pub struct ApiCase {
+  pub t: u32,
+  /// explicit polynomials (coefficients highest degree first, decimal integers)
+  pub polys: Vec<Vec<String>>,
+  pub n: u8,
+  pub seed: u64,
+  pub secret: Vec<String>,
+}
+
+fn api_strat(_t: Tier) -> BoxedStrategy<ApiCase> {
+  (1u32..9, vec(vec(element(), 1..7), 0..4), 1u8..12, any::<u64>(), vec(element(), 0..4))
+    .prop_map(|(t, polys, n, seed, secret)| ApiCase { t, polys, n, seed, secret })
+    .boxed()
+}
+
+/// the remaining public entry points: get_evaluator on explicit polynomials,
+/// interpolate called directly, random_polynomial, and dealer() with the thread RNG
+fn api_oracle(c: &ApiCase, st: &mut Stats) -> Result<(), String> {
+  use star_sharks::{get_evaluator, interpolate, random_polynomial};
+  // 1. get_evaluator(polys): every dealt value is the model's Horner value
+  let polys_big: Vec<Vec<BigUint>> = c.polys.iter().map(|pl| pl.iter().map(|s| s.parse::<BigUint>().unwrap_or_default() % p()).collect()).collect();
+  let polys_fp: Vec<Vec<Fp>> = polys_big.iter().map(|p| p.iter().map(|v| big_to_fe(v).unwrap()).collect()).collect();
+  let mut ev = get_evaluator(polys_fp);
+  let mut rng = ScriptedRng::new(&[], c.seed);
+  for i in 0..c.n {
+    let s = if i % 2 == 0 { ev.next().unwrap() } else { ev.gen(&mut rng) };
+    let x = fe_to_big(&s.x);
+    if x.is_zero() {
+      return Err("evaluator handed out x = 0".into());
+    }
+    if s.y.len() != polys_big.len() {
+      return Err(format!("share carries {} values for {} polynomials", s.y.len(), polys_big.len()));
+    }
+    for (j, pb) in polys_big.iter().enumerate() {
+      st.evals(1);
+      if horner_hi_to_lo(pb, &x) != fe_to_big(&s.y[j]) {
+        return Err(format!("get_evaluator: value of polynomial {j} at x = {x} disagrees with Horner evaluation of {:?}", c.polys[j]));
+      }
+    }
+  }
+  // 2. random_polynomial(s, k, rng): k coefficients, the last one is s, the others are the draws
+  let s0 = c.secret.first().map(|s| s.parse::<BigUint>().unwrap_or_default() % p()).unwrap_or_default();
+  let mut r1 = ScriptedRng::new(&[], c.seed ^ 1);
+  let mut r2 = r1.clone();
+  let poly = random_polynomial(big_to_fe(&s0).unwrap(), c.t, &mut r1);
+  if poly.len() != c.t as usize || fe_to_big(&poly[poly.len() - 1]) != s0 {
+    return Err(format!("random_polynomial(s, {}) returned {} coefficients / wrong constant term", c.t, poly.len()));
+  }
+  for (i, co) in poly[..poly.len() - 1].iter().enumerate() {
+    if fe_to_big(co) != fe_to_big(&Fp::random(&mut r2)) {
+      return Err(format!("random_polynomial: coefficient {i} is not the {i}-th draw from the supplied source"));
+    }
+  }
+  // 3. dealer() (thread RNG): shares lie on polynomials of degree t-1 with the secret as constant
+  //    term, and interpolate() called directly agrees with bigint Lagrange
+  let secret: Vec<BigUint> = c.secret.iter().map(|s| s.parse::<BigUint>().unwrap_or_default() % p()).collect();
+  let mut bytes = Vec::new();
+  for e in &secret {
+    bytes.extend_from_slice(&le24(e));
+  }
+  let t = c.t as usize;
+  let dealer = Sharks(c.t).dealer(&bytes).map_err(|e| format!("dealer refused an in-range secret: {e}"))?;
+  let shares: Vec<Share> = dealer.take(t + 2).collect();
+  let direct = interpolate(&shares[..t]).map_err(|e| format!("interpolate failed on t distinct shares: {e}"))?;
+  if direct != bytes {
+    return Err(format!("interpolate(first t shares) = {} but the secret is {}", hx(&direct), hx(&bytes)));
+  }
+  for j in 0..secret.len() {
+    let pts: Vec<(BigUint, BigUint)> = shares[..t].iter().map(|s| (fe_to_big(&s.x), fe_to_big(&s.y[j]))).collect();
+    let co = interpolate_coeffs(&pts);
+    if co[0] != secret[j] {
+      return Err("dealer(): constant term is not the secret element".into());
+    }
+    for s in &shares[t..] {
+      if eval_lo_to_hi(&co, &fe_to_big(&s.x)) != fe_to_big(&s.y[j]) {
+        return Err("dealer(): shares do not lie on one polynomial of degree t-1".into());
+      }
+    }
+  }
+  if interpolate(&[]).is_ok() {
+    return Err("interpolate accepted an empty share list".into());
+  }
+  st.evals(3);
+  st.nontrivial(&(c.t, &c.polys, c.n, &c.secret));
+  Ok(())
+}
+
 pub fn property() -> Property {
   Property {
     id: "C06",
@@ -519,6 +621,7 @@ pub fn property() -> Property {
       prop_sub("model_agreement_large_t", 16, 400, |_| strat_with(64, true), oracle),
       prop_sub("out_of_range_secret", 2000, 40000, oor_strat, oor_oracle),
       prop_sub("recover_arbitrary_points", 6000, 120000, pts_strat, pts_oracle),
+      prop_sub("other_entry_points", 3000, 60000, api_strat, api_oracle),
       enum_sub(
         "degree_at_huge_thresholds",
         |t| 2 * huge_thresholds(t).len() as u64,
